@@ -139,6 +139,7 @@ def c18_r2(ctx):
     resolution is AlreadyCorrect."""
     P = ctx.P
     restores, shortcut, executes = summaries(P)
+    shortcut_ids_all = {f.id for f in WorkRoles(P).shortcut_fns()}
     n_rest = sum(1 for k, v in restores.items() if v)
     n_short = sum(1 for k, v in shortcut.items() if v)
     for fid, v in sorted(restores.items()):
@@ -162,10 +163,16 @@ def c18_r2(ctx):
                         if u is a or u.bb not in f.reach_after(a.bb):
                             continue
                         for tu in P.local_targets(u):
-                            for ku, wit in shortcut.get(tu, {}).items():
+                            # (a shortcut function called right here: its assumed state is argument 3)
+                            for ku, wit in (list(shortcut.get(tu, {}).items()) + ([(3, u)] if tu in shortcut_ids_all else [])):
                                 if ku - 1 >= len(u.args):
                                     continue
-                                if f.vars_of_operand(u.args[ku - 1]) != xa:
+                                xu = f.vars_of_operand(u.args[ku - 1])
+                                # (the same object: the very same variable, or the `.path` and the
+                                #  `.file_state` of one FileInfo)
+                                same_info = bool(xu) and {o[:1] for o in xu} == {o[:1] for o in xa} and \
+                                    all(o[1:] in ((), (("field", "path"),), (("field", "file_state"),)) for o in xu | xa)
+                                if xu != xa and not same_info:
                                     continue
                                 # a command between them on every path?
                                 r = f.reach_after(a.bb, avoid_blocks=ex)
